@@ -285,6 +285,12 @@ func (C06) Execute(sc *core.Scenario, keepLog bool) *core.Result {
 				b := st.boxes[1+abs(a.Arg(0))%(len(st.boxes)-1)]
 				st.nboxes++
 				nn := fmt.Sprintf("rbox%d", st.nboxes)
+				if abs(a.Arg(1))%3 == 1 {
+					// the remote changes nothing but the letter case of the name
+					if nn = strings.ToUpper(b.Name); nn == b.Name {
+						nn = strings.ToLower(b.Name)
+					}
+				}
 				r := st.submit(imap.NewMailboxUpdated(imap.MailboxID(b.Remote), []string{nn}), "MailboxUpdated "+b.Name+"->"+nn)
 				if e.Failed() {
 					return
@@ -350,7 +356,9 @@ func (C06) Execute(sc *core.Scenario, keepLog bool) *core.Result {
 				}
 				// a batch may restate a message the server already has, next to the new ones
 				// (a sync that overlaps the previous one): the known one stays as it is
-				if a.Arg(6)%3 == 0 && n > 0 && n < 10 {
+				var furtherBox *model.Mailbox
+				var furtherObj *model.Obj
+				if a.Arg(6)%3 == 0 && n < 10 {
 					if m0 := pick(a.Arg(7)); m0 != nil {
 						var ids0 []imap.MailboxID
 						deleted0 := false
@@ -359,6 +367,19 @@ func (C06) Execute(sc *core.Scenario, keepLog bool) *core.Result {
 							deleted0 = deleted0 || b.Members[b.Index(m0.obj)].Deleted
 						}
 						if len(ids0) > 0 && !deleted0 {
+							// ... and may name one more mailbox for it (a label added since): the known
+							// message joins that mailbox; a batch may consist of such an entry alone
+							if abs(a.Arg(7)/3)%2 == 1 || n == 0 {
+								for k := range st.boxes {
+									b := st.boxes[(k+abs(a.Arg(5)))%len(st.boxes)]
+									if b.Index(m0.obj) < 0 {
+										furtherBox, furtherObj = b, m0.obj
+										ids0 = append(ids0, imap.MailboxID(b.Remote))
+										e.St.Probes["known_message_named_with_further_mailbox"]++
+										break
+									}
+								}
+							}
 							parsed0, _ := imap.NewParsedMessage(m0.lit)
 							restated := &imap.MessageCreated{Message: imap.Message{ID: m0.id, Flags: flagSetOf(m0.obj), Date: world.SimStart}, Literal: m0.lit, MailboxIDs: ids0, ParsedMessage: parsed0}
 							pos := abs(a.Arg(7)) % (len(batch) + 1)
@@ -389,9 +410,12 @@ func (C06) Execute(sc *core.Scenario, keepLog bool) *core.Result {
 					e.Fail("valid-update", "MessagesCreated of %d new messages into existing mailboxes completed with error %v", n, r.Err)
 					return
 				}
+				if furtherBox != nil && furtherBox.Index(furtherObj) < 0 {
+					furtherBox.Add(furtherObj, false)
+				}
 				for j, m := range ms {
 					if m == nil {
-						continue // the restated message: nothing changes
+						continue // the restated message: nothing else changes
 					}
 					st.msgs = append(st.msgs, m)
 					for _, b := range st.boxes {
